@@ -4,7 +4,8 @@ package preconfirmation_test
 // evmclient.EvmClient (Send / newTx / getNonce) over evmclient.WrapEthClient(ethclient) talking JSON-RPC to an
 // in-process endpoint with scripted answers, and the production keysigner.PrivateKeySigner. Every raw transaction
 // that reaches eth_sendRawTransaction is decoded (types.Transaction.UnmarshalBinary) and emitted field by field,
-// with the recovered sender, the eth_estimateGas argument and the order of the foreground calls.
+// with the recovered sender, the eth_estimateGas argument and the order of the foreground calls, and with the bytes
+// go-ethereum's signer hashes for it (0x02 and the RLP list of the payload fields; compared with model/EvmTxWire.v).
 
 import (
 	"context"
@@ -24,7 +25,9 @@ import (
 	"github.com/ethereum/go-ethereum/common"
 	"github.com/ethereum/go-ethereum/common/hexutil"
 	"github.com/ethereum/go-ethereum/core/types"
+	"github.com/ethereum/go-ethereum/crypto"
 	"github.com/ethereum/go-ethereum/ethclient"
+	"github.com/ethereum/go-ethereum/rlp"
 	"github.com/ethereum/go-ethereum/rpc"
 	preconfpb "github.com/primevprotocol/mev-commit/gen/go/preconfirmation/v1"
 	preconfcontract "github.com/primevprotocol/mev-commit/pkg/contracts/preconf"
@@ -82,6 +85,7 @@ type c07RawTx struct {
 	Data                      []byte
 	Type                      int
 	Sender                    []byte
+	Signed                    []byte // what the signer hashes: 0x02 and the RLP list of the nine payload fields
 }
 type c07CallMsg struct {
 	From, To, Data []byte
@@ -255,6 +259,17 @@ func (c *c07Chain) answer(req *c01e2eReq) c01e2eResp {
 		if from, err := types.Sender(types.LatestSignerForChainID(tx.ChainId()), tx); err == nil {
 			o.Sender = from.Bytes()
 		}
+		// the bytes go-ethereum signs, rebuilt from the decoded transaction and checked against the signer's hash
+		if tx.Type() == types.DynamicFeeTxType {
+			if enc, err := rlp.EncodeToBytes([]interface{}{tx.ChainId(), tx.Nonce(), tx.GasTipCap(), tx.GasFeeCap(), tx.Gas(), tx.To(), tx.Value(), tx.Data(), tx.AccessList()}); err != nil {
+				c.problem = append(c.problem, "signing payload: "+err.Error())
+			} else {
+				o.Signed = append([]byte{2}, enc...)
+				if crypto.Keccak256Hash(o.Signed) != types.LatestSignerForChainID(tx.ChainId()).Hash(tx) {
+					c.problem = append(c.problem, "signing payload: its hash is not the hash the signer signs")
+				}
+			}
+		}
 		c.raws = append(c.raws, o)
 		if !c.cur.SubmitOK {
 			return fail(c07RefusalTexts[((c.cur.RefuseText%len(c07RefusalTexts))+len(c07RefusalTexts))%len(c07RefusalTexts)])
@@ -416,7 +431,7 @@ func c07TxCoq(id int, in c07TxIn, obs c07TxObs) string {
 		}
 		ans := coqRecord("EvmTx.a_pending", optN(st.Pending), "EvmTx.a_est", optN(st.Est), "EvmTx.a_tip", c07OptZ(st.Tip),
 			"EvmTx.a_price", c07OptZ(st.Price), "EvmTx.a_sign", coqBool(st.SignOK), "EvmTx.a_submit", coqBool(st.SubmitOK))
-		raw, typ, sender := "None", "0%N", coqBytes(nil)
+		raw, typ, sender, signed := "None", "0%N", coqBytes(nil), coqBytes(nil)
 		if so.Raw != nil {
 			to := "None"
 			if so.Raw.To != nil {
@@ -425,7 +440,7 @@ func c07TxCoq(id int, in c07TxIn, obs c07TxObs) string {
 			raw = "(Some " + coqRecord("EvmTx.tx_chain", c07MustZ(so.Raw.Chain), "EvmTx.tx_nonce", coqN(so.Raw.Nonce), "EvmTx.tx_tip", c07MustZ(so.Raw.Tip),
 				"EvmTx.tx_feecap", c07MustZ(so.Raw.FeeCap), "EvmTx.tx_gas", coqN(so.Raw.Gas), "EvmTx.tx_to", to,
 				"EvmTx.tx_value", c07MustZ(so.Raw.Value), "EvmTx.tx_data", coqBytes(so.Raw.Data)) + ")"
-			typ, sender = coqN(uint64(so.Raw.Type)), coqBytes(so.Raw.Sender)
+			typ, sender, signed = coqN(uint64(so.Raw.Type)), coqBytes(so.Raw.Sender), coqBytes(so.Raw.Signed)
 		}
 		est := "None"
 		if so.Est != nil {
@@ -441,14 +456,14 @@ func c07TxCoq(id int, in c07TxIn, obs c07TxObs) string {
 			ms = append(ms, coqN(uint64(m)))
 		}
 		steps = append(steps, coqRecord("s_src", src, "s_ans", ans, "s_ret", coqN(uint64(so.Ret)), "s_raw", raw,
-			"s_raw_count", coqN(uint64(so.RawCount)), "s_type", typ, "s_sender", sender, "s_est", est, "s_methods", coqList(ms)))
+			"s_raw_count", coqN(uint64(so.RawCount)), "s_type", typ, "s_sender", sender, "s_signed", signed, "s_est", est, "s_methods", coqList(ms)))
 	}
 	if obs.Problem != "" || len(obs.Steps) != len(in.Steps) {
 		// harness problem: an impossible observation, so that the case shows up as a mismatch (never as a violation)
 		steps = append(steps, coqRecord("s_src", coqApp("SrcReq", coqRecord("EvmTx.rq_to", "None", "EvmTx.rq_data", coqBytes(nil), "EvmTx.rq_price", "None",
 			"EvmTx.rq_gas", "0%N", "EvmTx.rq_feecap", "None", "EvmTx.rq_value", "None")),
 			"s_ans", coqRecord("EvmTx.a_pending", "None", "EvmTx.a_est", "None", "EvmTx.a_tip", "None", "EvmTx.a_price", "None", "EvmTx.a_sign", "false", "EvmTx.a_submit", "false"),
-			"s_ret", "77%N", "s_raw", "None", "s_raw_count", "0%N", "s_type", "0%N", "s_sender", coqBytes(nil), "s_est", "None", "s_methods", "[]"))
+			"s_ret", "77%N", "s_raw", "None", "s_raw_count", "0%N", "s_type", "0%N", "s_sender", coqBytes(nil), "s_signed", coqBytes(nil), "s_est", "None", "s_methods", "[]"))
 	}
 	return coqApp("CTx", coqRecord("t_id", coqN(uint64(id)), "t_chain", coqBigZ(new(big.Int).SetUint64(in.ChainID)), "t_owner", coqBytes(obs.Owner),
 		"t_contract", coqBytes(common.BytesToAddress(in.Contract).Bytes()), "t_steps", coqList(steps)))
